@@ -286,6 +286,17 @@ func c06Build(name string, paths []string, tells int, forceParent bool) c06Scn {
 func c06Scenarios() []c06Scn {
 	nt := vsched.Pick(3, 4)
 	var out []c06Scn
+	// single-path scenarios first (smallest to largest): they carry the basic verdict of every stop
+	// path; a breaking change that wedges the harness in a racing-pair scenario is then still reported
+	// through the violations found here
+	single := []string{"self-shutdown", "restart", "supervisor-stop", "passivation", "poisonpill", "kill", "shutdown", "stop-child", "stop-child-inturn", "system-stop", "parent-stop"}
+	for _, p := range single {
+		n := nt
+		if p == "supervisor-stop" || p == "self-shutdown" || p == "restart" || p == "passivation" {
+			n = nt - 1
+		}
+		out = append(out, c06Build(p, []string{p}, n, false))
+	}
 	// every pair of stop paths racing on the same actor (child "a" of "p"), one (thorough: two) user message(s)
 	pl := []string{"poisonpill", "kill", "shutdown", "stop-child", "stop-child-inturn", "parent-stop", "system-stop", "supervisor-stop", "self-shutdown", "passivation", "restart"}
 	for i := 0; i < len(pl); i++ {
@@ -324,16 +335,6 @@ func c06Scenarios() []c06Scn {
 		}
 	}})
 
-	// the single-path scenarios are the largest: they come last so that they inherit the time the small
-	// ones leave over (ExploreAll hands unused budget to later scenarios)
-	single := []string{"self-shutdown", "restart", "supervisor-stop", "passivation", "poisonpill", "kill", "shutdown", "stop-child", "stop-child-inturn", "system-stop", "parent-stop"}
-	for _, p := range single {
-		n := nt
-		if p == "supervisor-stop" || p == "self-shutdown" || p == "restart" || p == "passivation" {
-			n = nt - 1
-		}
-		out = append(out, c06Build(p, []string{p}, n, false))
-	}
 	return out
 }
 
